@@ -376,6 +376,115 @@ pub fn contexts() -> Vec<Ctx> {
         .collect()
 }
 
+/// Every row of the quirks-mode tables of the "initial" insertion mode (the 55 public-identifier
+/// prefixes, the three exact public identifiers, the system identifier, the two HTML 4.01 and the two
+/// XHTML 1.0 prefixes), each in nine shapes: as is, continued, upper-cased, lower-cased and continued,
+/// one character short, with a leading space, with a system identifier, under another name, and as a
+/// SYSTEM identifier; the first shape also in an iframe srcdoc document. A single wrong row of the
+/// table in html5ever (a typo, a missing entry, prefix vs exact match, case) differs from the model here.
+fn doctype_matrix() -> Vec<(String, bool)> {
+    let mut ids: Vec<String> = crate::model::reftree::QUIRKY_PUBLIC_PREFIXES.iter().map(|s| s.to_string()).collect();
+    for s in [
+        "-//W3O//DTD W3 HTML Strict 3.0//EN//",
+        "-/W3C/DTD HTML 4.0 Transitional/EN",
+        "HTML",
+        "http://www.ibm.com/data/dtd/v11/ibmxhtml1-transitional.dtd",
+        "-//W3C//DTD HTML 4.01 Frameset//",
+        "-//W3C//DTD HTML 4.01 Transitional//",
+        "-//W3C//DTD XHTML 1.0 Frameset//",
+        "-//W3C//DTD XHTML 1.0 Transitional//",
+        "-//W3C//DTD HTML 4.01//",
+        "-//W3C//DTD XHTML 1.0 Strict//",
+        "-//W3C//DTD XHTML 1.1//",
+        "",
+    ] {
+        ids.push(s.to_string());
+    }
+    let mut v = vec![];
+    for p in &ids {
+        let short: String = {
+            let mut c: Vec<char> = p.chars().collect();
+            c.pop();
+            c.into_iter().collect()
+        };
+        v.push((format!("<!DOCTYPE html PUBLIC \"{p}\">x"), false));
+        v.push((format!("<!DOCTYPE html PUBLIC \"{p}\">x"), true));
+        v.push((format!("<!DOCTYPE html PUBLIC \"{p}EN\">x"), false));
+        v.push((format!("<!DOCTYPE html PUBLIC \"{}\">x", p.to_uppercase()), false));
+        v.push((format!("<!DOCTYPE html PUBLIC \"{}zz\">x", p.to_lowercase()), false));
+        v.push((format!("<!DOCTYPE html PUBLIC \"{short}\">x"), false));
+        v.push((format!("<!DOCTYPE html PUBLIC \" {p}\">x"), false));
+        v.push((format!("<!DOCTYPE html PUBLIC \"{p}\" \"s\">x"), false));
+        v.push((format!("<!DOCTYPE html PUBLIC \"{p}\" \"\">x"), false));
+        v.push((format!("<!DOCTYPE htm PUBLIC \"{p}\">x"), false));
+        v.push((format!("<!DOCTYPE html SYSTEM \"{p}\">x"), false));
+        v.push((format!("<!DOCTYPE html PUBLIC \"x\" \"{p}\">x"), false));
+        v.push((format!("<!doctype HTML public '{p}'><p>"), false));
+    }
+    v
+}
+
+/// One input per row of the remaining tables of the tree builder.
+fn table_matrix() -> Vec<String> {
+    let mut v = vec![];
+    for a in crate::model::reftree::SVG_ATTRS {
+        let l = a.to_ascii_lowercase();
+        v.push(format!("<svg {l}=1 {l}x=2><g {l}=3 /><foreignObject><p {l}=4></foreignObject></svg><math {l}=5><mi {l}=6></mi></math><div {l}=7>"));
+    }
+    for t in crate::model::reftree::SVG_TAGS {
+        let l = t.to_ascii_lowercase();
+        v.push(format!("<svg><{l} a=1>t</{l}><{l}x/><{l}/></svg><math><{l}>u</{l}></math><div><{l}>v</{l}></div>"));
+        v.push(format!("<svg><{t}>t</{t}></svg>"));
+    }
+    for a in ["xlink:actuate", "xlink:arcrole", "xlink:href", "xlink:role", "xlink:show", "xlink:title", "xlink:type", "xml:lang", "xml:space", "xmlns", "xmlns:xlink", "xlink:hrefx", "xlink:", "xlink", "xml:base", "xml:id", "xmlns:foo", "xmlns:", "xml:", "xlink:label", "xlink:from", "xlink:to"] {
+        v.push(format!("<svg {a}=1><g {a}=2 /></svg><math {a}=3><mi {a}=4></mi></math><p {a}=5>"));
+        v.push(format!("<svg {}=1>", a.to_uppercase()));
+    }
+    for (el, a) in [("math", "definitionurl"), ("mi", "definitionurl"), ("svg", "definitionurl"), ("annotation-xml", "encoding"), ("math", "DEFINITIONURL")] {
+        v.push(format!("<math><{el} {a}=u>x</{el}></math><svg><{el} {a}=u>y"));
+    }
+    // break-out tags of foreign content (and their neighbours)
+    for t in [
+        "b", "big", "blockquote", "body", "br", "center", "code", "dd", "div", "dl", "dt", "em", "embed", "h1", "h2", "h3", "h4", "h5", "h6", "head", "hr", "i", "img", "li", "listing", "menu", "meta", "nobr", "ol", "p", "pre", "ruby", "s",
+        "small", "span", "strong", "strike", "sub", "sup", "table", "tt", "u", "ul", "var", "a", "abbr", "address", "font", "form", "html", "input", "title", "script", "style", "template", "svg", "math", "q", "cite", "label", "button", "select", "textarea", "iframe", "object", "video",
+    ] {
+        v.push(format!("<svg><g><{t}>x</{t}>y</g>z</svg>w"));
+        v.push(format!("<math><mi><{t}>x</mi><mo><{t}>y"));
+        v.push(format!("<svg><desc><{t}>x</desc><{t}>y"));
+    }
+    for a in ["color", "face", "size", "COLOR", "colour", "style", "sizes", ""] {
+        v.push(format!("<svg><font {a}=1>x</font>y</svg><math><font {a}>z"));
+    }
+    // scope boundaries inside foreign content (MathML text integration points, annotation-xml, SVG
+    // foreignObject / desc / title) against each kind of scope
+    for (open, close) in [("<math><mi>", "</mi></math>"), ("<math><mo>", "</mo></math>"), ("<math><mn>", "</mn></math>"), ("<math><ms>", "</ms></math>"), ("<math><mtext>", "</mtext></math>"), ("<math><annotation-xml>", "</annotation-xml></math>"), ("<math><annotation-xml encoding=text/html>", "</annotation-xml></math>"), ("<math><annotation-xml encoding='application/xhtml+xml'>", "</annotation-xml></math>"), ("<svg><foreignObject>", "</foreignObject></svg>"), ("<svg><desc>", "</desc></svg>"), ("<svg><title>", "</title></svg>"), ("<svg><g>", "</g></svg>"), ("<math><mrow>", "</mrow></math>")] {
+        for (outer, inner) in [("<p>", "<p>"), ("<button>", "<button>"), ("<ul><li>", "<li>"), ("<table><tr><td>", "<td>"), ("<a>", "<a>"), ("<nobr>", "<nobr>"), ("<h1>", "</h1>"), ("<dl><dd>", "<dt>"), ("<form>", "</form>"), ("<b>", "</b>"), ("<select>", "<option>")] {
+            v.push(format!("{outer}a{open}{inner}b{close}c"));
+        }
+    }
+    // every known element name in the contexts that consult the element-category tables
+    let mut names = gen::all_html_names();
+    names.sort();
+    names.dedup();
+    for n in names {
+        if EXCLUDE.contains(&n) {
+            continue;
+        }
+        v.push(format!("<p>a<{n}>b</p>c"));
+        v.push(format!("<button>a<{n}>b</button>c<button>d"));
+        v.push(format!("<ul><li>a<{n}>b<li>c</ul><dl><dd><{n}><dt>x"));
+        v.push(format!("<table><{n}>a<tr><td><{n}>b</table>c"));
+        v.push(format!("<select><{n}>a</select>b"));
+        v.push(format!("<b><i>a<{n}>b</b>c</i>d</{n}>e"));
+        v.push(format!("<{n}>a</{n}>b<{n}/>c</{n}>"));
+        v.push(format!("<a>x<{n}><a>y"));
+        v.push(format!("<h1>a<{n}>b<h2>c"));
+        v.push(format!("<template><{n}>a</template>b"));
+        v.push(format!("<svg><{n}>a</{n}>b</svg>c"));
+    }
+    v
+}
+
 pub fn run(args: &Args) -> (Meta, Stats) {
     if let Some(p) = &args.replay {
         let mut st = Stats::new();
@@ -441,6 +550,11 @@ pub fn run(args: &Args) -> (Meta, Stats) {
         let _ = std::fs::write(&args.rest[2], serde_json::to_string_pretty(&doc).unwrap());
         return (super::meta(args, "fill vectors", &[]), st);
     }
+    // the DOCTYPE tables, row by row
+    let mut doctypes = doctype_matrix();
+    // ... and the other tables: foreign attribute / tag-name adjustments, break-out tags, and every
+    // known element name in the contexts whose behaviour depends on the element-category tables
+    doctypes.extend(table_matrix().into_iter().map(|s| (s, false)));
     // known-answer vectors of the model first
     let vec_path = args.root.join("vectors").join("tree_vectors.json");
     let vectors = reftree::check_vectors(&vec_path.to_string_lossy());
@@ -452,6 +566,14 @@ pub fn run(args: &Args) -> (Meta, Stats) {
         // systematic part: every scenario-ish input under every context x scripting (sharded)
         let all_ctx: Vec<Option<Ctx>> = std::iter::once(None).chain(ctxs.iter().cloned().map(Some)).collect();
         let mut k = 0usize;
+        for (i, (input, srcdoc)) in doctypes.iter().enumerate() {
+            if i % nshards == shard {
+                let mut o = HtmlOpts::default();
+                o.iframe_srcdoc = *srcdoc;
+                check_case(input, &o, st, false);
+                st.count("doctype_matrix_cases");
+            }
+        }
         while !expired(deadline) {
             let (input, mut o) = match rng.below(10) {
                 0..=3 => {
@@ -512,7 +634,7 @@ pub fn run(args: &Args) -> (Meta, Stats) {
     }
     let mut m = super::meta(
         args,
-        "One-piece parse of grammar documents, scenario templates, mutations, focused tag soups and a DOCTYPE sweep, as documents and under every fragment context x scripting x iframe_srcdoc x initial quirks mode, by html5ever (into the abstract DOM) and by the independent reference tree builder driven by the reference tokenizer; the dump of the document tree (namespaces, adjusted attributes, template contents, duplicate-attribute flag) and the final quirks mode must be equal. Non-trivial = model tree has more than 4 nodes; distinct by hash of input+options.",
+        "One-piece parse of grammar documents, scenario templates, mutations, focused tag soups, a DOCTYPE sweep and the complete DOCTYPE table matrix (every public-identifier prefix / exact identifier / system identifier of the quirks and limited-quirks tables x 13 shapes) and a matrix with one input per row of the other tables (58 SVG attribute and 37 SVG tag-name adjustments, foreign attribute adjustments and near misses, MathML definitionURL, 65 break-out candidates in three foreign contexts, font attributes, and every known element name in eleven contexts that consult the special / scope / implied-end-tag categories), as documents and under every fragment context x scripting x iframe_srcdoc x initial quirks mode, by html5ever (into the abstract DOM) and by the independent reference tree builder driven by the reference tokenizer; the dump of the document tree (namespaces, adjusted attributes, template contents, duplicate-attribute flag) and the final quirks mode must be equal. Non-trivial = model tree has more than 4 nodes; distinct by hash of input+options.",
         &[
             "scripts never run (no document.write, no re-entrancy); allow_declarative_shadow_roots = false",
             "the fragment context element is parentless and no form element is passed (html5ever's parse_fragment API)",
@@ -541,6 +663,7 @@ pub fn run(args: &Args) -> (Meta, Stats) {
         ("model:doctype:no-quirks".into(), 50),
         ("model_vectors_passed".into(), 150),
         ("fragment_contexts".into(), 40),
+        ("doctype_matrix_cases".into(), 2800),
     ];
     for m in MODE_NAMES {
         req.push((format!("cases_reaching_mode:{m}"), 20));
